@@ -301,6 +301,8 @@ def _run(eng, world, contracts, qual, res, timeout_ms, concretise, keep_smt, onl
         r, dt, model, solver = solve(ob.hyps, ob.goal, timeout_ms)
         if _PROGRESS:
             print('  [%s] %.2fs %s' % (r, dt, ob.name), flush=True)
+            if r == z3.unknown and _os.environ.get('VERIF_EXPLAIN') == '1':
+                _explain(ob.hyps, ob.goal, 0)
         if r == z3.unsat:
             res.obligations.append(ObResult(ob.name, ob.kind, 'proved', dt))
         elif r == z3.sat:
@@ -346,3 +348,20 @@ def _model_text(model, args):
             except Exception:
                 out[k] = '?'
     return out
+
+
+def _explain(hyps, goal, depth):
+    """developer aid: which conjunct of an undecided goal is the hard one"""
+    g = goal
+    if z3.is_implies(g):
+        hyps = list(hyps) + [g.arg(0)]
+        g = g.arg(1)
+    parts = g.children() if z3.is_and(g) else [g]
+    for c in parts:
+        s = z3.Solver()
+        s.add(hyps)
+        s.add(z3.Not(c))
+        r = zcheck(s, 2500)
+        print('      %s%s: %s' % ('  ' * depth, r, str(c).replace('\n', ' ')[:260]), flush=True)
+        if r != z3.unsat and depth < 2 and (z3.is_and(c) or z3.is_implies(c)):
+            _explain(hyps, c, depth + 1)
